@@ -207,7 +207,7 @@ func body() {
 	r.Assumptions = []string{
 		"MetaClient, TSDBStore, ShardWriter and HintedHandoff are doubles: 'stored' means the double acknowledged a write that carried exactly the shard's points; 'durably queued' means the HintedHandoff double accepted the enqueue (queue durability itself is C04)",
 		"one shard group with one shard; three points that all map to it; AllowOutOfOrderWrites=false (default)",
-		"an owner that never answers is parked until WritePointsPrivileged has returned (WriteTimeout 20 ms, raised 20x twice before an unexpected timeout is believed); all other owners answer when their turn comes, never by the clock; when every owner answers WriteTimeout is 10 min",
+		"an owner that never answers is parked until WritePointsPrivileged has returned (WriteTimeout 20 ms); all other owners answer when their turn comes, never by the clock; when every owner answers WriteTimeout is 10 min. A timeout reported although the answering owners met the level is believed only on clock-free evidence: the writer's log shows it treated every counting owner as failed, or (after repeats with 400 ms and then 10 min) a goroutine dump shows the collecting goroutine blocked with every answering owner goroutine ended",
 		"arrival order: an owner's last double call returns in turn; an error answer is confirmed consumed through the writer's log before the next owner is released, a non-final success answer only gets a few scheduler yields (order then almost always, not provably, as intended; verdicts do not depend on it)",
 		"the oracle tolerates an early report of a level that can no longer be met (error class of any arrival prefix after which the level is out of reach) and any non-nil error when an owner never answers and the level is unmet",
 		"extra handoff offers are looked for after the owner goroutines ended: audit of a case's recorded calls is deferred by 4096 later cases, the tail waits until the goroutine profile shows no owner goroutine",
@@ -321,6 +321,7 @@ func body() {
 	r.Set("workers", workers)
 	r.Set("gomaxprocs", procs)
 	r.Count("goroutine_profile_inspections", atomic.LoadInt64(&profileDumps))
+	r.Count("goroutine_state_inspections", atomic.LoadInt64(&stackDumps))
 	pprof.StopCPUProfile()
 	raceReports()
 	r.Finish()
@@ -341,28 +342,30 @@ func oneCase(wk *worker, sp *caseSpec, audits chan<- *caseRun) {
 	}
 	for attempt := 0; ; attempt++ {
 		c = newCaseRun(sp)
+		c.definitive = attempt == 2
+		if c.definitive {
+			timeout = longTimeout
+		}
 		r.Eval(1)
 		c.run(wk, timeout)
 		// A level met by the answering owners but reported as a timeout may be
-		// the clock (slow machine). It is believed at once when the writer's
-		// own log shows that it took the answer of every owner that counts
-		// towards the level off the channel and treated it as a failure;
-		// otherwise only when it persists with a WriteTimeout 400x longer and
-		// the owners answered within the first quarter of it.
-		if c.inconclusive == "" && c.want.Met && c.want.Silent && errors.Is(c.err, coordinator.ErrTimeout) {
+		// the clock (slow machine: the 20 ms timer beat the answers). It is
+		// believed at once when the writer's own log shows that it took the
+		// answer of every owner that counts towards the level off the channel
+		// and treated it as a failure. Otherwise the case is repeated with
+		// 400 ms and then with a WriteTimeout that cannot fire: there a correct
+		// writer returns success as soon as it has the answers, and a writer
+		// that does not is convicted from goroutine states (writerParked), not
+		// from elapsed time.
+		if c.inconclusive == "" && !c.definitive && c.want.Met && c.want.Silent && errors.Is(c.err, coordinator.ErrTimeout) {
 			if c.countingOwnersLoggedAsFailed() {
 				r.Count("timeout_with_level_met_confirmed_by_writer_log", 1)
 				break
 			}
-			if attempt < 2 {
-				r.Count(fmt.Sprintf("timeout_escalations_from_%dms", timeout.Milliseconds()), 1)
-				audits <- c
-				timeout *= 20
-				continue
-			}
-			if c.lastDoneAt.Sub(c.startAt) > timeout/4 {
-				c.inconclusive = "answers were slower than a quarter of an 8 s WriteTimeout"
-			}
+			r.Count(fmt.Sprintf("timeout_escalations_from_%dms", timeout.Milliseconds()), 1)
+			audits <- c
+			timeout *= 20
+			continue
 		}
 		break
 	}
@@ -377,6 +380,16 @@ func judge(c *caseRun) {
 		return
 	}
 	lv := levelName[sp.Level]
+	if c.parked {
+		r.Count("met_level_unreported_shown_by_goroutine_states", 1)
+		sig := fmt.Sprintf("C03/%s/%s-reported-although-level-met", lv, className[clTimeout])
+		if w.OnlyQueue {
+			sig = "C03/any/accepted-enqueue-behind-nonempty-queue-not-counted"
+		}
+		r.Violation(sig, sp.ID, fmt.Sprintf("level %s over %d owners needs %d, %d stored and %d were accepted by hinted handoff; with a WriteTimeout that cannot fire the collecting goroutine was found blocked although every answering owner's goroutine had ended: it has every answer and does not report success (timeout with any real WriteTimeout)",
+			lv, sp.N, w.Required, w.Stored, w.Queued), c.witness("convicted from goroutine states, WriteTimeout 10 min"))
+		return
+	}
 	got := classify(c.err)
 	r.Count("returned_"+className[got], 1)
 	switch {
